@@ -76,6 +76,7 @@ def add_full_list_content(tree):
         z.writestr("md/new/1", "Subject: x\n\nbody\n")
         z.writestr("md/cur/2", "Subject: y\n\nbody\n")
         z.writestr("run.pyg", PYG_SRC)
+        z.writestr("zd/page.html", "<html><head><title>Page inside the archive</title></head><body>x</body></html>\n")
         z.writestr("old.zip/notes.txt", "a directory that is named like an archive\n")
         z.writestr("zd/broken.zip", "a file that is named like an archive but is none\n")
     tree.write("hello.pyg", PYG_SRC)
@@ -83,7 +84,7 @@ def add_full_list_content(tree):
     tree.write("tmpl.html.tal", b"<html><body><p tal:content=\"selector\">x</p></body></html>\n")
     return [("/arch.zip", "dir"), ("/arch.zip/inside.txt", "file"), ("/arch.zip/zd", "dir"),
             ("/arch.zip/zd/nested.txt", "file"), ("/arch.zip/old.zip", "dir"), ("/arch.zip/old.zip/notes.txt", "file"),
-            ("/arch.zip/zd/broken.zip", "file"), ("/arch.zip/box.mbox", "file"), ("/arch.zip/md", "dir"),
+            ("/arch.zip/zd/broken.zip", "file"), ("/arch.zip/zd/page.html", "file"), ("/arch.zip/box.mbox", "file"), ("/arch.zip/md", "dir"),
             ("/arch.zip/run.pyg", "file"), ("/arch.zip/box.mbox|/MBOX-MESSAGE/1", "file"),
             ("/arch.zip/md|/MAILDIR-MESSAGE/1", "file"), ("/mail/box.mbox|/MBOX-MESSAGE/1", "file"), ("/hello.pyg", "file"), ("/script.sh", "file"),
             ("/tmpl.html.tal", "file")]
